@@ -3,7 +3,9 @@ package c06
 
 import (
 	"fmt"
+	"os"
 
+	"github.com/goatcms/goatcore/filesystem/filespace/diskfs"
 	"github.com/goatcms/goatcore/filesystem/filespace/memfs"
 	"github.com/goatcms/goatcore/filesystem/fscache"
 	"pgregory.net/rapid"
@@ -17,6 +19,7 @@ type Case struct {
 	Remote []fsmodel.TNode `json:"remote"`
 	Ops    []fsmodel.Op    `json:"ops"`
 	FailAt int             `json:"fail_at"`
+	Disk   bool            `json:"disk,omitempty"` // the remote is a disk filespace in a temp dir instead of memfs
 }
 
 // Excluded generator classes of open findings.
@@ -33,7 +36,7 @@ func Gen(rt *rapid.T) Case {
 	if hx.Thorough() {
 		max = 40
 	}
-	c := Case{Remote: fsmodel.Flatten(remote), FailAt: -1}
+	c := Case{Remote: fsmodel.Flatten(remote), FailAt: -1, Disk: hx.Chance(rt, 8, "disk")}
 	ops := fsmodel.GenHistory(rt, fsmodel.GenCfg{MinOps: 1, MaxOps: max, NoisyPaths: true, Initial: remote, DropFailingMutations: true,
 		Weights: map[string]int{"Remove": 10, "RemoveAll": 8, "CopyDirectory": 7, "Copy": 6, "MkdirAll": 10,
 			"ReadDir": 2, "IsExist": 1, "IsDir": 1, "IsFile": 1, "ReadFile": 2, "Reader": 1, "Lstat": 1}})
@@ -66,7 +69,20 @@ func exec(c Case) (hx.Verdict, int) {
 }
 
 func run(c Case) (hx.Verdict, int) {
-	remoteFS, err := memfs.NewFilespace()
+	var remoteFS fsmodel.FS
+	var err error
+	if c.Disk {
+		dir, derr := os.MkdirTemp("", "c06-")
+		if derr != nil {
+			v := hx.Pass()
+			v.Inconclusive = true
+			return v, 0
+		}
+		defer os.RemoveAll(dir)
+		remoteFS, err = diskfs.NewFilespace(dir)
+	} else {
+		remoteFS, err = memfs.NewFilespace()
+	}
 	if err != nil {
 		return hx.Fail("setup", "%v", err), 0
 	}
@@ -84,6 +100,9 @@ func run(c Case) (hx.Verdict, int) {
 	m.Root = initial.Clone()
 	b := fsmodel.NewBackend("cache", cache)
 	v := hx.Pass()
+	if c.Disk {
+		v.Label("remote-on-disk")
+	}
 	fail := func(i int, clause, detail string) hx.Verdict {
 		f := hx.Fail(clause, "%s", detail)
 		f.Step = i
